@@ -36,6 +36,7 @@ type Finding struct {
 	WitnessPkg string `json:"witness_pkg,omitempty"` // package directory relative to the repository
 	WitnessRun string `json:"witness_run,omitempty"` // test name
 	Commit     string `json:"commit,omitempty"`      // for fixed entries
+	Case       string `json:"bounded_case,omitempty"` // for a finding of a bounded stand-in: text that identifies the failing case (a different case is a new violation)
 }
 
 type KnownFindings struct {
@@ -410,6 +411,12 @@ func runCheck(opt *checkOpts) int {
 			}
 			rec := map[string]any{"name": b.Name, "function": b.Function, "bound": b.Bound, "covers": b.Covers, "wall_s": round3(time.Since(tb).Seconds())}
 			switch {
+			case failLine != "" && knownBoundedCase(kf, opt.property, b.Name, failLine) != nil:
+				f := knownBoundedCase(kf, opt.property, b.Name, failLine)
+				rec["result"] = "violated (listed known finding)"
+				rec["failing_case"] = failLine
+				fmt.Printf("KNOWN-FINDING: property=%s bounded.%s: %s [input: %s]\n", opt.property, b.Name, f.What, f.Input)
+				knownHit = append(knownHit, "bounded."+b.Name)
 			case failLine != "":
 				rec["result"] = "violated"
 				rec["failing_case"] = failLine
@@ -674,4 +681,16 @@ func runReplayFile(path string) int {
 	}
 	verif := filepath.Dir(filepath.Dir(filepath.Dir(path)))
 	return runCheck(&checkOpts{property: prop, tier: "quick", repo: "/repo", verif: verif, only: fn, verbose: true})
+}
+
+// knownBoundedCase: the open finding that lists exactly this failing case of a bounded stand-in (identified by a text the
+// failing-case line must contain), or nil.
+func knownBoundedCase(kf *KnownFindings, prop, name, failLine string) *Finding {
+	for i := range kf.Findings {
+		f := &kf.Findings[i]
+		if f.Status == "open" && f.Property == prop && f.Obligation == "bounded."+name && f.Case != "" && strings.Contains(failLine, f.Case) {
+			return f
+		}
+	}
+	return nil
 }
